@@ -1,13 +1,32 @@
 #!/bin/bash
-# Serialised (flock) build of the Coq development: bin/coqmake.sh [make targets relative to coq/, e.g. C07_Seq/Proofs.vo]
-# With no target builds everything (keeps going past failures of unrelated files).
+# Build of the Coq development (full .vo, never -vos).
+#   bin/coqmake.sh                      -> everything (setup; keeps going past failures of unrelated files), global lock
+#   bin/coqmake.sh D1/F1.vo D2/F2.vo …  -> these targets and what they need, through a PRIVATE makefile + dependency file for the
+#                                          model directories involved, under a per-directory lock (properties do not block each other)
 cd "$(dirname "$0")/.." || exit 2
 mkdir -p build
-exec 9> build/.coq.lock
-flock 9
-bash bin/mkcoqproject.sh || exit 2
+WARN="-arg -w -arg -notation-overridden,-deprecated-hint-without-locality,-deprecated-instance-without-locality,-ambiguous-paths,-redundant-canonical-projection"
 if [ $# -eq 0 ]; then
+  exec 9> build/.coq.lock; flock 9
+  bash bin/mkcoqproject.sh || exit 2
   timeout 7200 make -C coq -j16 -k
-else
-  timeout 7200 make -C coq -j16 "$@"
+  exit $?
 fi
+key=$(dirname "$1" | tr '/' '_')
+exec 9> build/.coq.$key.lock; flock 9
+cd coq || exit 2
+files=""
+for t in "$@"; do
+  d=$(dirname "$t")
+  if [ "$d" = "Properties" ]; then files="$files ${t%o}"; else files="$files $(ls $d/*.v 2>/dev/null)"; fi
+done
+files=$(echo $files | tr ' ' '\n' | LC_ALL=C sort -u | tr '\n' ' ')
+# Properties files may import model directories that are not among the targets' directories: add them
+for f in $files; do
+  for m in $(grep -ho "Verif\.[A-Za-z0-9_]*" $f 2>/dev/null | sort -u | sed 's/Verif\.//'); do
+    [ -d "$m" ] && case " $files " in *" $m/"*) ;; *) files="$files $(ls $m/*.v)";; esac
+  done
+done
+files=$(echo $files | tr ' ' '\n' | LC_ALL=C sort -u | tr '\n' ' ')
+coq_makefile -Q . Verif $WARN $files -o Makefile.$key > /dev/null || exit 2
+timeout 3000 make -f Makefile.$key -j8 "$@"
